@@ -618,9 +618,13 @@ func describeJoin(sci interface{}) string {
 }
 
 func genC09(g GenCtx) interface{} {
+	return genJoin(g, joinKinds[g.Idx%len(joinKinds)]) // every join is exercised in turn
+}
+
+func genJoin(g GenCtx, kind string) *Join {
 	rng := g.Rng
 	sc := &Join{Prop: g.Prop}
-	sc.Kind = joinKinds[g.Idx%len(joinKinds)] // every join is exercised in turn
+	sc.Kind = kind
 	sc.With = sc.Kind != "ingress-pods" && rng.Intn(3) == 0
 	sels := []map[string]string{nil, {"app": "a"}, {"app": "b"}, {"app": "a", "tier": "x"}}
 	ns := func() string { return pick(rng, "n1", "n1", "n2") }
@@ -681,7 +685,21 @@ func genC09(g GenCtx) interface{} {
 	}
 	n := rng.Intn(25)
 	for i := 0; i < n; i++ {
-		switch r := rng.Intn(12); {
+		switch r := rng.Intn(13); {
+		case r == 12:
+			// a burst of changes to one source object without a pause: the
+			// refilters they cause must take effect in source order
+			name := pick(rng, "s1", "s2")
+			nsb := ns()
+			for k := 2 + rng.Intn(3); k > 0; k-- {
+				a := JAct{Op: "src-apply", NS: nsb, Name: name}
+				if isIng {
+					a.Refs = refs()
+				} else {
+					a.Sel = sels[1+rng.Intn(len(sels)-1)]
+				}
+				sc.Acts = append(sc.Acts, a)
+			}
 		case r < 4:
 			sc.Acts = append(sc.Acts, srcAct())
 		case r < 8:
@@ -695,6 +713,28 @@ func genC09(g GenCtx) interface{} {
 		default:
 			sc.Acts = append(sc.Acts, JAct{Op: "check"})
 		}
+	}
+	if !isIng && rng.Intn(3) == 0 {
+		// a decisive ordering scenario: destinations for both selectors exist and
+		// one source flips between them several times without a pause; the join
+		// must end with the selection of the LAST selector
+		sc.DstInit = append(sc.DstInit,
+			world.Spec{NS: "n1", Name: "p1", Labels: map[string]string{"app": "a"}},
+			world.Spec{NS: "n1", Name: "p2", Labels: map[string]string{"app": "b"}})
+		sc.SrcInit = append(sc.SrcInit, world.Spec{NS: "n1", Name: "s1", Sel: map[string]string{"app": "a"}})
+		at := rng.Intn(len(sc.Acts) + 1)
+		var burst []JAct
+		v := "a"
+		for k := 2 + rng.Intn(4); k > 0; k-- {
+			if v == "a" {
+				v = "b"
+			} else {
+				v = "a"
+			}
+			burst = append(burst, JAct{Op: "src-apply", NS: "n1", Name: "s1", Sel: map[string]string{"app": v}})
+		}
+		burst = append(burst, JAct{Op: "check"})
+		sc.Acts = append(sc.Acts[:at:at], append(burst, sc.Acts[at:]...)...)
 	}
 	sc.CloseDst = rng.Intn(3) == 0
 	if rng.Intn(3) == 0 {
